@@ -9,6 +9,9 @@ def harnesses_b(tier):
             what='is_inside: periodic axes wrap index -1 -> n-1 and n -> 0 and shift the position by exactly one box side (same term), non-periodic axes report outside exactly when the index leaves [0,n)', bound='n per axis in [1,1000], index in [-1,n], all 8 periodicity combinations (symbolic)'),
          BHarness('K3_wall', 'c16_grid.cpp', 'h_k3_wall', timeout=900, maxpaths=60000, split=4, strict=True,
             what='get_wall_intersection from inside a cell: next_index non-zero on at least one axis, only with the sign of the direction component, zero for zero components; ds not negative', bound='cell and origin symbolic, direction components in [-1,1] not all zero')]
+    H.append(BHarness('K2_amr_child', 'c16_amr.cpp', 'h_k2_child', timeout=900, maxpaths=4000, strict=True, split=2,
+        what='AMRGridCell after one real refinement (create_all_cells): get_child(position) returns, on each axis independently, the child that starts at the parent mid-plane iff the position is above that axis\' own mid-plane (else the child at the parent anchor); children are half as wide; octant index i maps to the child with the anchor of octant i',
+        bound='one refinement level; box anchor, sides (>0) and position symbolic; all 8 octant paths'))
     return H
 def harnesses_a(tier):
     return [AHarness('K3_longindex', 'c16_grid.cpp', 'h_k3_longindex', unwind=4, timeout=600, native_replay=False, what='get_long_index is the row-major bijection onto [0,nx*ny*nz) and get_indices inverts it', bound='n per axis in [1,8], every in-range index triple')]
